@@ -2,11 +2,15 @@
 
 
 class Alias:
-    def __init__(self, chk, old: str, new: str):
-        self._chk, self._old, self._new = chk, old, new
+    def __init__(self, chk, old, new: str = ""):
+        self._chk = chk
+        self._map = dict(old) if isinstance(old, dict) else {old: new}
 
     def _m(self, rule: str) -> str:
-        return self._new + rule[len(self._old):] if rule.startswith(self._old) else rule
+        for old, new in self._map.items():
+            if rule.startswith(old):
+                return new + rule[len(old):]
+        return rule
 
     def __getattr__(self, name):
         return getattr(self._chk, name)
